@@ -8,6 +8,7 @@ Oracle : union-find over all pairs with long-double chord separations (vlib/refs
 """
 import math
 import random
+import warnings
 import itertools
 import numpy as np
 from vlib.harness import Check, np_rng
@@ -63,6 +64,20 @@ def eff_cs(L, cs):
     return max(cs, 4.0 * L)
 
 
+# Canaries: tiny fixed inputs with known groupings; the harness runs C05.canary() (all of them, in CANARY_ORDER) right after
+# setup and after every case in the same process (clause `history`): a call must not leave anything behind (numpy error
+# state, warning filters, module state) that changes the answer of the next one.  They walk the warning-prone paths: link
+# circles containing a pole, all points at one RA (0/0 in chunks.rarange), a group across RA 0/360, all points at one Dec.
+CANARIES = {
+    'polar': ({'ra': [0.0, 180.0, 90.0, 200.0], 'dec': [89.9, 89.92, 89.95, 88.0], 'L': 0.2}, [0, 0, 0, 1]),
+    'equal_ra': ({'ra': [10.0, 10.0, 10.0, 10.0], 'dec': [20.0, 20.03, 20.2, 20.23], 'L': 0.05}, [0, 0, 1, 1]),
+    'seam': ({'ra': [359.99, 0.01, 0.3, 0.03], 'dec': [-5.0, -5.0, -4.9, -5.0], 'L': 0.025}, [0, 0, 1, 0]),
+    'equal_dec': ({'ra': [40.0, 40.03, 40.5, 40.05], 'dec': [60.0, 60.0, 60.0, 60.0], 'L': 0.02}, [0, 0, 1, 0]),
+    'equal_ra_zero': ({'ra': [0.0, 0.0, 0.0], 'dec': [-30.0, -30.2, -30.01], 'L': 0.02}, [0, 1, 0]),
+}
+CANARY_ORDER = ('polar', 'equal_ra', 'seam', 'equal_dec', 'equal_ra_zero', 'polar', 'equal_ra')
+
+
 class C05(Check):
     ID = 'C05'
     CASE_CPU_S = 30.0
@@ -75,13 +90,16 @@ class C05(Check):
             'chunk geometry; polar caps; all-sky scatter; coincident points; two-point inputs; grids clamped at +-90; and '
             'the bounded-exhaustive lattice sub-space (all placements of 2-4 points on a 5x5 lattice of spacing 0.6 L centred '
             'on a chunk corner, on RA 0/360 and at Dec 89; complete in the thorough tier).  Every case is re-run in a '
-            'permuted order and with another chunk size.  Non-trivial: >= 1 group of >= 2 members whose members have '
+            'permuted order and with another chunk size.  Class degenerate: all points at exactly one RA (meridian strips, '
+            'two points at one RA, RA 0, strips into the polar cap) or at exactly one Dec.  After every case the harness '
+            'runs the canary sequence (fixed polar, equal-RA, seam, equal-Dec inputs, polar before equal-RA) in the same '
+            'process, so that what a call leaves behind is seen by the next call.  Non-trivial: >= 1 group of >= 2 members whose members have '
             'different home chunks; distinct by hash of the materialised case.')
     ASSUMPTIONS = ['separations from a long-double chord formula; a case is undecided only if linking or not linking the '
                    'pairs within max(1e-9 relative, 1e-11 deg) of L changes the partition',
                    'the mutual consistency of the four arrays is checked on every case, decided or not',
                    'the order in which next[] visits the members of a group is not prescribed by the property']
-    REQUIRED_COUNTERS = ('groups_spanning_chunks', 'undecided_cases', 'band_pairs_harmless', 'replicated_points', 'chunk_fof_calls', 'perm_variants',
+    REQUIRED_COUNTERS = ('canary_sequences', 'canary_inputs_judged', 'equal_ra_cases', 'equal_dec_cases', 'groups_spanning_chunks', 'undecided_cases', 'band_pairs_harmless', 'replicated_points', 'chunk_fof_calls', 'perm_variants',
                          'chunksize_variants', 'enforced_minimum_chunksize', 'near_threshold_links', 'seam_cases',
                          'polar_slice_cases', 'multi_member_groups', 'lattice_cases')
 
@@ -110,6 +128,29 @@ class C05(Check):
         self.rec.wrap(SG, 'spheregroup')
         self._combos = None
         self._latgeo = {}
+        # known answers of the canaries, verified once against the independent reference (harness error if they disagree)
+        self._canary = {}
+        for name, (inp, labels) in CANARIES.items():
+            a = (np.array(inp['ra'], dtype='d'), np.array(inp['dec'], dtype='d'))
+            sure, maybe, nband, S = R.fof(a[0], a[1], inp['L'])
+            if list(sure) != list(labels) or list(maybe) != list(labels):
+                raise RuntimeError('canary %s: stored answer disagrees with the reference' % name)
+            self._canary[name] = a
+
+    def canary(self):
+        """Fixed, ordinary call sequence (polar group first, then equal-RA, seam, equal-Dec, RA 0, polar, equal-RA).
+        No np.errstate() here - it would put back what the calls leave behind."""
+        res = []
+        for name in CANARY_ORDER:
+            a = self._canary[name]
+            try:
+                with warnings.catch_warnings():
+                    warnings.simplefilter('ignore')
+                    r = self.SG.spheregroup(a[0].copy(), a[1].copy(), CANARIES[name][0]['L'])
+                res.append(('ok', name) + tuple(tuple(np.asarray(x).astype(int).tolist()) for x in r))
+            except Exception as e:
+                res.append(('raised', type(e).__name__, '%s: %s' % (name, str(e)[:80])))
+        return res
 
     def teardown(self):
         self.rec.unwrap_all()
@@ -130,6 +171,8 @@ class C05(Check):
             'two_points': 160 if q else 5000,
             'clamped': 300 if q else 5000,
             'lattice': 900 if q else LAT_TOTAL,
+            'canary_inputs': len(CANARIES),
+            'degenerate': 240 if q else 5000,
         }
 
     # ------------------------------------------------------------------ helpers
@@ -278,6 +321,45 @@ class C05(Check):
             return None
         ra, dec = self._shuffle(rng, ra, dec)
         return {'L': L, 'cs': rng.choice([None, None, 4.0 * L, 5.0 * L, 8.0 * L]), 'ra': ra, 'dec': dec, 'comb': comb}
+
+    def gen_canary_inputs(self, rng, nr, i):
+        """the canary inputs as ordinary cases, so that their answers are also judged by the oracle on the tree under test"""
+        name = sorted(CANARIES)[i % len(CANARIES)]
+        inp = CANARIES[name][0]
+        return {'L': inp['L'], 'cs': None, 'ra': list(inp['ra']), 'dec': list(inp['dec']), 'canary': name, 'cs_floor': 0.05}
+
+    def gen_degenerate(self, rng, nr, i):
+        """all points at exactly one RA (meridian strip, two points at one RA, RA 0 and the largest double below 360,
+        strips running into the polar cap) or at exactly one Dec; order shuffled"""
+        kind = rng.choice(['meridian', 'meridian', 'meridian', 'two_at_one_ra', 'cap_strip', 'parallel', 'parallel'])
+        L = log_uniform(rng, 1e-3, 3.0)
+        ra0 = rng.choice([0.0, 0.0, RA_TOP, 10.0, 180.0, rng.uniform(0, 360), rng.uniform(0, 360)])
+        dec0 = clipdec(rng.choice(DECS) + rng.uniform(-0.4, 0.4))
+        n = 2 if kind == 'two_at_one_ra' else rng.randint(2, 50)
+        if kind == 'parallel':
+            ra, a = [], ra0
+            for _ in range(n):
+                ra.append(R.wrap360(a))
+                w = R.ew_width(self._link_factor(rng, 0.2) * L, dec0)
+                a += w if (w is not None and w <= 20.0) else 20.0
+            dec = [dec0] * n
+        else:
+            if kind == 'cap_strip':
+                pole = rng.choice([1.0, -1.0])
+                d, sgn = pole * (90.0 - 10.0 ** rng.uniform(-9, -1)), -pole
+            else:
+                d, sgn = dec0, (1.0 if dec0 < 0 else -1.0)
+            dec = []
+            for _ in range(n):
+                dec.append(clipdec(d))
+                d += sgn * self._link_factor(rng, 0.2) * L
+            ra = [ra0] * n
+            if rng.random() < 0.3:
+                j = rng.randrange(n)
+                dec.append(dec[j])              # a coincident point on the strip
+                ra.append(ra0)
+        ra, dec = self._shuffle(rng, ra, dec)
+        return {'L': L, 'cs': self._pick_cs(rng, L), 'ra': ra, 'dec': dec, 'kind': kind}
 
     def gen_rings(self, rng, nr, i):
         sgn = rng.choice([1.0, -1.0])
@@ -506,7 +588,8 @@ class C05(Check):
         dec = np.array(case['dec'], dtype='d')
         L = float(case['L'])
         n = ra.size
-        sure, maybe, nband, S = R.fof(ra, dec, L)           # separations cross-checked (chord vs Vincenty) inside
+        with np.errstate(all='ignore'):      # an error state left behind by an earlier call must not reach the reference
+            sure, maybe, nband, S = R.fof(ra, dec, L)       # separations cross-checked (chord vs Vincenty) inside
         out.count('reference_selfchecks')
         decided = sure == maybe
         if not decided:
@@ -521,6 +604,12 @@ class C05(Check):
         out.count('multi_member_groups', int((sizes >= 2).sum()))
         if case.get('cls') == 'lattice':
             out.count('lattice_cases')
+        if case.get('cls') == 'canary_inputs':
+            out.count('canary_inputs_judged')
+        if np.all(ra == ra[0]):
+            out.count('equal_ra_cases')
+        if np.all(dec == dec[0]):
+            out.count('equal_dec_cases')
         runs = [{'p': None, 'cs': case['cs']}] + list(case.get('variants', []))
         span = 0
         for vi, v in enumerate(runs):
@@ -539,7 +628,8 @@ class C05(Check):
                     out.count('perm_variants')
                 if v['cs'] != case['cs']:
                     out.count('chunksize_variants')
-            self._judge(out, res, p, n, sure if decided else None, tag, case, Sf, L)
+            with np.errstate(all='ignore'):
+                self._judge(out, res, p, n, sure if decided else None, tag, case, Sf, L)
         out.nontrivial = span >= 1
         out.info.update({'n': n, 'groups': int(len(sizes)), 'largest_group': int(sizes.max()), 'band_pairs': nband,
                          'decided': bool(decided), 'groups_spanning_chunks': span})
